@@ -49,7 +49,7 @@ type beforeRec struct {
 	Method string `json:"method"`
 	URL    string `json:"url"`
 	Kind   string `json:"kind"`
-	CurOp  int    `json:"current_operation"` // index of the operation the harness was executing (-1: none)
+	CurOp  int    `json:"current_operation"`      // index of the operation the harness was executing (-1: none)
 	HS     string `json:"latest_handshake_token"` // token of the most recently started Initialize call
 	Failed bool   `json:"returned_error"`
 }
@@ -98,9 +98,20 @@ type runLog struct {
 	hc *http.Client
 }
 
+// dialResetOnClose dials like net.Dialer but makes the client socket send a reset when it is closed: a
+// connection the client closes first (cancelled event stream, Close) then leaves no TIME_WAIT entry behind.
+// The thousands of short-lived clients of one run would otherwise use up the machine's ephemeral ports.
+func dialResetOnClose(ctx context.Context, network, addr string) (net.Conn, error) {
+	c, err := (&net.Dialer{Timeout: 10 * time.Second}).DialContext(ctx, network, addr)
+	if tc, ok := c.(*net.TCPConn); ok && err == nil {
+		_ = tc.SetLinger(0)
+	}
+	return c, err
+}
+
 func newRunLog(client string, failAt int) *runLog {
 	tr := &http.Transport{
-		DialContext:         (&net.Dialer{Timeout: 10 * time.Second}).DialContext,
+		DialContext:         dialResetOnClose,
 		MaxIdleConns:        16,
 		MaxIdleConnsPerHost: 16,
 		IdleConnTimeout:     30 * time.Second,
